@@ -19,7 +19,7 @@
    (model, implementation through the parseEvents hook, and the real Stream() against the fake master are compared
    with the unit-level oracle). *)
 From Coq Require Import String.
-From GB Require Import Base.Prelude Model.Events Model.Rbr Model.Streamer Spec.Units.
+From GB Require Import Base.Prelude Model.Events Model.Rbr Model.Streamer Model.Handshake Spec.Units.
 From GB Require Import Spec.EncHeader Spec.Values Spec.EncEvent Spec.Expect Spec.EventSpec Spec.Binlog.
 From GB Require Import Proofs.ImageProofs Proofs.TableMapProofs Proofs.RowsProofs Proofs.RowsAll Proofs.CellAll.
 From GB Require Import Proofs.StreamProofs Proofs.StreamProofs2 Proofs.StreamProofs3 Proofs.Capstone.
@@ -229,6 +229,26 @@ Proof.
   { cbn [wf_unit wf_stmt]. split; [e_arith|]. split; [unfold fits; vm_compute; reflexivity|]. split; [e_table|]. split; [e_gap|e_rows]. }
   apply Forall_nil.
 Qed.
+
+(* the connection layer between the socket and the parser: every packet that is not an EOF / ERR packet is handed to
+   the parser as one event (the packet without its first byte), in the order received, nothing dropped or altered;
+   reader_source pins the text of the two Go functions this is a reading of (regenerated by gosync on every run) *)
+Theorem C01_reader_faithful : forall pkts,
+  Forall (fun p => exists b ev, p = b :: ev /\ b <> 254 /\ b <> 255) pkts ->
+  reader_events pkts = map (fun p => tl p) pkts.
+Proof. exact reader_events_faithful. Qed.
+Print Assumptions C01_reader_faithful.
+
+Theorem C01_reader_prefix : forall pkts,
+  exists k, (k <= length pkts)%nat /\ reader_events pkts = map (fun p => tl p) (firstn k pkts).
+Proof. exact reader_events_prefix. Qed.
+Print Assumptions C01_reader_prefix.
+
+From GBGen Require Structure.
+Example C01_reader_source :
+  Structure.src_readBinlogEvent = str "{ buf, err := s.dc.ReadPacket() if err != nil { return nil, newError(err).msgf(""readPacket fail."") } switch buf[0] { case mysql.PacketEOF: return nil, newError(errStreamEOF).msgf(""readBinlogEvent reach end"") case mysql.PacketERR: return nil, newError(s.dc.HandleErrorPacket(buf)).msgf(""fetch error packet"") default: } data := make([]byte, len(buf)-1) copy(data, buf[1:]) return replication.NewMysql56BinlogEvent(data), nil }"%string /\
+  Structure.src_reader_loop = str "for { ev, err := s.readBinlogEvent() if err != nil { s.errChan <- err close(s.errChan) return } select { case eventChan <- ev: case <-ctx.Done(): s.errChan <- newError(ctx.Err()).msgf(""startDumpFromBinlogPosition cancel"") close(s.errChan) return } }"%string.
+Proof. exact reader_source. Qed.
 
 (* ---------------------------------------------------------------------------------------------------------------
    Tie to the source.  The functions *_g below are generated from /repo on every run by harness/cmd/gotrans
